@@ -724,6 +724,14 @@ func (g *Gen) forStmt() Stmt {
 	case "three":
 		i := g.fresh("i")
 		f.Init = &VarDecl{Kind: ":=", Name: i, X: &IntLit{V: 0}}
+		if g.chance(1, 10) {
+			// the init statement is an expression (its value has to be discarded); the counter is declared
+			// before the loop
+			pre = append(pre, &VarDecl{Kind: ":=", Name: i, X: &IntLit{V: 0}})
+			g.sc.parent.vars = append(g.sc.parent.vars, &gvar{name: i, typ: tInt, ro: true, level: g.level})
+			f.Init = &ExprStmt{X: &Call{F: &Ident{Name: "len"}, Args: []Expr{&ListLit{Items: []Expr{&Ident{Name: i}}}}}}
+			g.feat("for-init-expression")
+		}
 		f.Cond = &Binary{Op: "<", L: &Ident{Name: i}, R: &IntLit{V: n}}
 		if g.chance(1, 5) {
 			f.Post = &Assign{Target: &Ident{Name: i}, Op: "+=", X: &IntLit{V: int64(1 + g.pick(2))}}
@@ -738,7 +746,9 @@ func (g *Gen) forStmt() Stmt {
 		} else {
 			f.Post = &IncDec{Name: i, Op: "++"}
 		}
-		g.declare(&gvar{name: i, typ: tInt, ro: true})
+		if _, isDecl := f.Init.(*VarDecl); isDecl {
+			g.declare(&gvar{name: i, typ: tInt, ro: true})
+		}
 	case "cond", "inf":
 		c := g.fresh("c")
 		pre = append(pre, &VarDecl{Kind: ":=", Name: c, X: &IntLit{V: 0}})
